@@ -244,6 +244,33 @@ def accessClassesOK (acc : Json) : Bool :=
 
 def accessRequests (acc : Json) : Nat := ((jsonArr acc "classes").toList.map (fun c => getNatD c "n")).sum
 
+/-! ### c06.isolation
+
+Whole lookups on one shared table + one shared glob cache; the model's `build` is, as for `c06.redirect`, the answer
+the same request gets from a fresh table and a fresh cache.  Everything but the load-balancing choice must be equal. -/
+
+def isoH : Handler := fun inp impl => do
+  let reqs := (jsonArr inp "reqs").toList
+  let n := reqs.length
+  let ci := canonImpl impl
+  let pairs := (ci.getArr?.toOption.getD #[]).toList
+  let (_, lR) := runSeq (rdThreadRepaired id (List.range n)).steps {} {}
+  let alone (k : Nat) : Json := ((pairs[k]?.bind (fun p => (p.getObjVal? "alone").toOption)).getD Json.null)
+  let model := Json.arr (lR.locs.map (fun (_, loc) => match loc with | some q => alone q | none => Json.null)).toArray
+  let got := Json.arr (pairs.map (fun p => (p.getObjVal? "got").toOption.getD Json.null)).toArray
+  let agree := ci != panicJson && pairs.length == n && model == got
+  let differs (k : String) : Bool := pairs.any (fun p =>
+    ((p.getObjVal? "got").toOption.bind (fun g => (g.getObjVal? k).toOption)) !=
+    ((p.getObjVal? "alone").toOption.bind (fun g => (g.getObjVal? k).toOption)))
+  let cls := (if getBoolD inp "globoff" then "glob-off" else "glob-evict") ++ (if getBoolD inp "rnd" then "+rnd" else "+rr")
+  let tag := if ci == panicJson then "panic:" ++ cls else if agree then cls
+    else if differs "service" then "cross-request:service:" ++ cls
+    else if differs "target" then "cross-request:target:" ++ cls
+    else if differs "denied" then "cross-request:access:" ++ cls
+    else "cross-request:redirect:" ++ cls
+  let hosts := (reqs.map (fun q => getNatD q "host")).eraseDups.length
+  return ({ model := model, agree := agree, spec := agree, nontrivial := decide (n ≥ 2) && decide (hosts ≥ 2), tag := tag } : Verdict).toJson
+
 /-! ### race streams -/
 
 structure RouteObs where
@@ -314,5 +341,5 @@ def stressH : Handler := fun _inp impl => do
 def streams : List (String × Handler) :=
   [("c06.globcache", gcH), ("c06.rr", rrH), ("c06.redirect", rdH),
    ("c06.rr-race", stressH), ("c06.glob-race", stressH), ("c06.redirect-race", stressH), ("c06.mixed-race", stressH),
-   ("c06.rnd-race", stressH), ("c06.access", accH), ("c06.access-race", stressH)]
+   ("c06.rnd-race", stressH), ("c06.access", accH), ("c06.access-race", stressH), ("c06.isolation", isoH)]
 end Fabio.Driver.C06
